@@ -7,7 +7,7 @@ import (
 	ma "github.com/multiformats/go-multiaddr"
 )
 
-var vrfEntries = map[string]func(){"VrfC15Cluster": VrfC15Cluster, "VrfC15ClusterEnv": VrfC15ClusterEnv}
+var vrfEntries = map[string]func(){"VrfC15Cluster": VrfC15Cluster, "VrfC15ClusterEnv": VrfC15ClusterEnv, "VrfC15ClusterDisplay": VrfC15ClusterDisplay}
 
 var vrfC15Addrs = []string{"/ip4/0.0.0.0/tcp/9096", "/ip4/0.0.0.0/udp/9096/quic", "/dns4/peer.example.org/tcp/9096/p2p/QmZHKZDavkvNfA9gSAg7HALv8jF7BJaKjUc9U2LSuvUySB"}
 
@@ -151,4 +151,20 @@ func VrfC15ClusterEnv() {
 		vrf_assert(want.Validate() != nil, "C15.cluster.env-valid-accepted")
 	}
 	vrf_reach("C15.cluster.env-end")
+}
+
+// VrfC15ClusterDisplay: the displayable form of the cluster section shows the
+// settings but not the cluster secret.
+func VrfC15ClusterDisplay() {
+	cfg := &Config{}
+	vrf_assert(cfg.Default() == nil, "C15.cluster.display-default")
+	cfg.Peername = "peer-name-shown"
+	secret := EncodeProtectorKey(cfg.Secret)
+	vrf_assert(len(secret) == 64, "C15.cluster.display-has-secret")
+	out, err := cfg.ToDisplayJSON()
+	vrf_assert(err == nil, "C15.cluster.display-ok")
+	text := string(out)
+	vrf_assert(!vrf_strcontains(text, secret), "C15.cluster.display-hides-secret")
+	vrf_assert(vrf_strcontains(text, "peer-name-shown"), "C15.cluster.display-shows-settings")
+	vrf_reach("C15.cluster.display-end")
 }
